@@ -15,7 +15,9 @@ RULE = (
     "clear(k <= current line count), texts {short, exactly width, width+1, 2.5 x width, two lines, bold-tagged, "
     "tab-led}; after every op all bytes emitted so far are replayed on a terminal emulator (newline, CR, cursor-up, "
     "erase-below, deferred auto-wrap) and compared with the stacked model contents; the same sequences on a plain "
-    "output; plus Hypothesis sequences up to 40 ops with widths 5..20. Non-trivial: a write to a section that is not "
+    "output; the same enumeration one op shorter on an output indented by 3 (sections inherit the indentation, so the "
+    "exactly-width line wraps only because of it); plus Hypothesis sequences up to 40 ops with widths 5..20 and "
+    "indentation 0/1/3/4. Non-trivial: a write to a section that is not "
     "the last one, a wrapped line, or a partial clear. Enumerated sequences are distinct by construction."
 )
 ASSUMPTIONS = [
@@ -63,20 +65,20 @@ def reduced_alphabet():
             ("clear1", 0), ("clear1", 1)]
 
 
-def inexact_tab(ops, width):
+def inexact_tab(ops, width, indent=0):
     """True when some written line has a tab and does not fit into one terminal row: clikit accounts the line by
     its tab-expanded length, while a terminal clamps a tab at the right margin instead of wrapping it."""
     for o in ops:
         if o[0] in ("write", "overwrite"):
             text = TEXTS.get(o[2], o[2])
             for line in plain_of(text).split("\n"):
-                if "\t" in line and len(line.expandtabs(8)) > width:
+                if "\t" in line and len((" " * indent + line).expandtabs(8)) > width:
                     return True
     return False
 
 
 class World(object):
-    def __init__(self, ansi, width):
+    def __init__(self, ansi, width, indent=0):
         from clikit.api.io import Output
         from clikit.formatter import AnsiFormatter, PlainFormatter
         from clikit.io.output_stream import BufferedOutputStream
@@ -86,6 +88,9 @@ class World(object):
         self.ansi = ansi
         self.stream = BufferedOutputStream()
         self.out = Output(self.stream, AnsiFormatter(forced=True) if ansi else PlainFormatter())
+        self.indent = indent
+        if indent:
+            self.out.indent(indent)  # sections take over the indentation of their output when they are created
         self.sections = []
         self.model = []  # per section: list of logical lines (plain text)
         self.appended = []  # plain mode: all lines in call order
@@ -107,7 +112,7 @@ class World(object):
         if k == "write":
             text = op[2] if op[2] not in TEXTS else TEXTS[op[2]]
             sec.write_line(text)
-            new = plain_of(text).split("\n")
+            new = [self.ind(l) for l in plain_of(text).split("\n")]
             lines.extend(new)
             self.appended.extend(new)
             if s < len(self.sections) - 1 or any(len(l.expandtabs(8)) > self.width for l in new):
@@ -115,7 +120,7 @@ class World(object):
         elif k == "overwrite":
             text = op[2] if op[2] not in TEXTS else TEXTS[op[2]]
             sec.overwrite(text)
-            new = plain_of(text).split("\n")
+            new = [self.ind(l) for l in plain_of(text).split("\n")]
             del lines[:]
             lines.extend(new)
             self.appended.extend(new)
@@ -132,6 +137,10 @@ class World(object):
             self.nt = True
         return True
 
+    def ind(self, line):
+        """A written line as it is shown: non-empty lines carry the indentation."""
+        return " " * self.indent + line if line else line
+
     def expected_screen(self):
         t = term.Terminal(self.width)
         for lines in self.model:
@@ -143,9 +152,10 @@ class World(object):
 def run_sequence(ctx, part, case, by_construction=False):
     ops = [tuple(o) for o in case["ops"]]
     width = case.get("width", WIDTH)
+    indent = case.get("indent", 0)
     nt = False
     for ansi in (True, False):
-        w = World(ansi, width)
+        w = World(ansi, width, indent)
         for i, op in enumerate(ops):
             try:
                 applied = w.apply(op)
@@ -166,17 +176,17 @@ def run_sequence(ctx, part, case, by_construction=False):
                 want, wcur = w.expected_screen()
                 if t.lines() != want:
                     sig = "partial-clear" if any(o[0] in ("clear1", "cleark") for o in ops[: i + 1]) else "screen"
-                    if inexact_tab(ops[: i + 1], width):
+                    if inexact_tab(ops[: i + 1], width, indent):
                         sig = "tab-approximation"
                     ctx.fail(part, "C15.screen", case, want, {"after_op": i, "screen": t.lines()}, sig=sig)
                     return
                 if t.cursor() != wcur:
                     ctx.fail(part, "C15.screen", case, list(wcur), {"after_op": i, "cursor": list(t.cursor())},
-                             sig="tab-approximation" if inexact_tab(ops[: i + 1], width) else "cursor")
+                             sig="tab-approximation" if inexact_tab(ops[: i + 1], width, indent) else "cursor")
                     return
                 for si, sec in enumerate(w.sections):
                     rows = sum(len(term.chunk(l.expandtabs(8), width)) for l in w.model[si])
-                    if sec.lines != rows and not inexact_tab(ops[: i + 1], width):
+                    if sec.lines != rows and not inexact_tab(ops[: i + 1], width, indent):
                         ctx.fail(part, "C15.accounting", case, rows, {"after_op": i, "section": si, "lines": sec.lines},
                                  sig="lines")
                         return
@@ -204,7 +214,8 @@ PARTS = {"exhaustive": check_exhaustive, "random": check_random}
 
 
 def shard_exhaustive(ctx, arg):
-    which, prefix, n = arg
+    which, prefix, n = arg[:3]
+    indent = arg[3] if len(arg) > 3 else 0
     alpha = full_alphabet() if which == "full" else reduced_alphabet()
     prefix = [tuple(p) for p in prefix]
     for rest in itertools.product(alpha, repeat=n - len(prefix)):
@@ -223,7 +234,10 @@ def shard_exhaustive(ctx, arg):
                 break
         if not ok:
             continue
-        run_sequence(ctx, "exhaustive", {"ops": [list(o) for o in ops]}, by_construction=True)
+        case = {"ops": [list(o) for o in ops]}
+        if indent:
+            case["indent"] = indent
+        run_sequence(ctx, "exhaustive", case, by_construction=True)
 
 
 def op_st():
@@ -243,6 +257,7 @@ def _random_case(ctx):
     return st.fixed_dictionaries({
         "ops": st.lists(op_st(), min_size=1, max_size=40).map(lambda l: [["create"]] + [list(o) for o in l]),
         "width": st.sampled_from([5, 10, 10, 13, 20]),
+        "indent": st.sampled_from([0, 0, 0, 1, 3, 4]),
     })
 
 
@@ -255,9 +270,12 @@ def run(ctx):
     else:
         jobs = [("full", [["create"], list(a), list(b)], 7) for a in full_alphabet() for b in full_alphabet()]
         jobs += [("reduced", [["create"], list(a), list(b)], 8) for a in reduced_alphabet() for b in reduced_alphabet()]
+    # the same on an output indented by 3 (sections inherit it; the 10-character line then wraps only because of it)
+    jobs += [("full", [["create"], list(a), list(b)], 5 if quick else 6, 3) for a in full_alphabet() for b in full_alphabet()]
     ctx.parallel("shard_exhaustive", jobs)
     ctx.exhaustive("exhaustive", True, "all applicable sequences after an initial create: %s"
-                   % ("5 further ops (17-op alphabet)" if quick else "6 further ops (17-op alphabet) and 7 (12-op alphabet)"))
+                   % ("5 further ops (17-op alphabet), 4 further ops on an output indented by 3" if quick else
+                      "6 further ops (17-op alphabet) and 7 (12-op alphabet), 5 further ops on an output indented by 3"))
     case = st.fixed_dictionaries({
         "ops": st.lists(op_st(), min_size=1, max_size=40).map(lambda l: [["create"]] + [list(o) for o in l]),
         "width": st.sampled_from([5, 10, 10, 13, 20]),
